@@ -289,7 +289,7 @@ def do_materials(spec, rec, rng):
         except Exception:
             pass
         pvt = getattr(m, "propertyValidTemperature", {}) or {}
-        dens_rng = pvt.get("density")
+        dens_rng = pvt.get("density") or pvt.get("pseudoDensity")
         exp_rng = None
         for key in ("linear expansion percent", "linear expansion", "thermal expansion", "cumulative linear expansion"):
             if key in pvt:
